@@ -510,6 +510,18 @@ func receiptTampers(idx int) []tamper {
 			}
 			return true
 		}),
+		mk("reverted-flag-only", func(r *core.TransactionReceipt, _ *chain.Entry) bool {
+			// the execution status alone (reason left as it is, possibly empty)
+			r.Reverted = !r.Reverted
+			return true
+		}),
+		mk("revert-reason-cleared", func(r *core.TransactionReceipt, _ *chain.Entry) bool {
+			if !r.Reverted || r.RevertReason == "" {
+				return false
+			}
+			r.RevertReason = ""
+			return true
+		}),
 		mk("revert-reason", func(r *core.TransactionReceipt, _ *chain.Entry) bool {
 			if !r.Reverted {
 				return false
